@@ -4,12 +4,6 @@ set_option linter.unusedSimpArgs false
 namespace Malt.Anf
 open Malt.Py Malt.SemAnf
 
-/-- sequencing of a computation with a continuation -/
-def bindK {α β : Type} (k : St → ER α) (g : α → St → ER β) (σ : St) : ER β :=
-  match k σ with
-  | (.ok a, σ1) => g a σ1
-  | (.error x, σ1) => (.error x, σ1)
-
 /-- the continuation gives the same result from agreeing states, and keeps them agreeing -/
 def RespAgree {α β : Type} (g : α → St → ER β) : Prop :=
   ∀ a σ τ, Agree σ τ → (g a τ).1 = (g a σ).1 ∧ Agree (g a σ).2 (g a τ).2
@@ -64,112 +58,6 @@ theorem respAgree_doCall (O : Oracle) (f : List Val → Val × List Arg) :
   split
   · refine ⟨by rw [h.1], h.emit_both _⟩
   · exact ⟨rfl, h⟩
-
-/-! ### evaluation of the fragment's nodes as "operands, then one step" -/
-theorem evalArgs_frag (O : Oracle) : ∀ (es : List Expr) (σ : St), fragEs es = true →
-    evalArgs O es σ = match evalOpts O es σ with
-      | (.ok vs, σ1) => (.ok (vs.map .pos), σ1)
-      | (.error x, σ1) => (.error x, σ1)
-  | [], σ, _ => by simp [evalArgs, evalOpts]
-  | e :: es, σ, h => by
-      simp only [fragEs, Bool.and_eq_true] at h
-      rw [evalArgs_cons_frag O h.1, evalOpts_cons]
-      rcases evalE O e σ with ⟨r, σ1⟩
-      cases r with
-      | error x => rfl
-      | ok v =>
-        simp only [evalArgs_frag O es σ1 h.2, consR, consArg]
-        rcases evalOpts O es σ1 with ⟨r2, σ2⟩
-        cases r2 <;> rfl
-
-theorem spreadArgs_pos (O : Oracle) : ∀ (vs : List Val), spreadArgs O (vs.map .pos) = some (vs, [])
-  | [] => rfl
-  | v :: vs => by simp [spreadArgs, spreadArgs_pos O vs]
-
-end Malt.Anf
-
-namespace Malt.Anf
-open Malt.Py Malt.SemAnf
-
-theorem eval_attr (O : Oracle) (i : Nat) (v : Expr) (a : String) (c : Ctx) (σ : St) :
-    evalE O (.attr i v a c) σ =
-      bindK (evalOpts O [v]) (fun vs τ => ((match vs with | [x] => .ok (O.getattr x a) | _ => .error unsupported), τ)) σ := by
-  simp only [evalE, bindK, evalOpts_cons, evalOpts]
-  rcases evalE O v σ with ⟨r, σ1⟩
-  cases r <;> rfl
-
-theorem eval_unary (O : Oracle) (i : Nat) (op : String) (v : Expr) (σ : St) :
-    evalE O (.unary i op v) σ =
-      bindK (evalOpts O [v]) (fun vs τ => ((match vs with | [x] => .ok (O.unop op x) | _ => .error unsupported), τ)) σ := by
-  simp only [evalE, bindK, evalOpts_cons, evalOpts]
-  rcases evalE O v σ with ⟨r, σ1⟩
-  cases r <;> rfl
-
-theorem eval_binop (O : Oracle) (i : Nat) (op : String) (l r : Expr) (σ : St) :
-    evalE O (.binop i op l r) σ =
-      bindK (evalOpts O [l, r]) (fun vs τ => ((match vs with | [x, y] => .ok (O.binop op x y) | _ => .error unsupported), τ)) σ := by
-  simp only [evalE, bindK, evalOpts_cons, evalOpts]
-  rcases evalE O l σ with ⟨r1, σ1⟩
-  cases r1 with
-  | error x => rfl
-  | ok x =>
-    simp only
-    rcases evalE O r σ1 with ⟨r2, σ2⟩
-    cases r2 <;> rfl
-
-theorem eval_subscript (O : Oracle) (i : Nat) (v s : Expr) (c : Ctx) (σ : St) :
-    evalE O (.subscript i v s c) σ =
-      bindK (evalOpts O [v, s]) (fun vs τ => ((match vs with | [x, y] => .ok (O.getitem x y) | _ => .error unsupported), τ)) σ := by
-  simp only [evalE, bindK, evalOpts_cons, evalOpts]
-  rcases evalE O v σ with ⟨r1, σ1⟩
-  cases r1 with
-  | error x => rfl
-  | ok x =>
-    simp only
-    rcases evalE O s σ1 with ⟨r2, σ2⟩
-    cases r2 <;> rfl
-
-theorem eval_compare1 (O : Oracle) (i : Nat) (l : Expr) (op : String) (r : Expr) (σ : St) :
-    evalE O (.compare i l [op] [r]) σ =
-      bindK (evalOpts O [l, r]) (fun vs τ => ((match vs with | [x, y] => .ok (O.cmp op x y) | _ => .error unsupported), τ)) σ := by
-  simp only [evalE, evalCmp, bindK, evalOpts_cons, evalOpts]
-  rcases evalE O l σ with ⟨r1, σ1⟩
-  cases r1 with
-  | error x => rfl
-  | ok x =>
-    simp only
-    rcases evalE O r σ1 with ⟨r2, σ2⟩
-    cases r2 <;> rfl
-
-theorem eval_seq (O : Oracle) (i : Nat) (k : SeqKind) (es : List Expr) (c : Ctx) (σ : St) (hf : fragEs es = true) :
-    evalE O (.seq i k es c) σ =
-      bindK (evalOpts O es) (fun vs τ => (.ok (match k with | .tuple => .tuple vs | .list => .list vs | .set => .set vs), τ)) σ := by
-  simp only [evalE, bindK, evalArgs_frag O es σ hf]
-  rcases evalOpts O es σ with ⟨r, σ1⟩
-  cases r with
-  | error x => rfl
-  | ok vs => simp only [spreadArgs_pos]; cases k <;> rfl
-
-theorem eval_call (O : Oracle) (i : Nat) (f : Expr) (as : List Expr) (σ : St) (hf : fragEs as = true) :
-    evalE O (.call i f as []) σ =
-      bindK (evalOpts O (f :: as))
-        (fun vs τ => doCall O (vs.headD .none, (vs.tail.map Arg.pos)).1 (vs.headD .none, (vs.tail.map Arg.pos)).2 τ) σ := by
-  simp only [evalE, bindK, evalOpts_cons]
-  rcases evalE O f σ with ⟨r1, σ1⟩
-  cases r1 with
-  | error x => rfl
-  | ok fv =>
-    simp only [evalArgs_frag O as σ1 hf, consR]
-    rcases evalOpts O as σ1 with ⟨r2, σ2⟩
-    cases r2 with
-    | error x => rfl
-    | ok avs => simp [evalArgs]
-
-theorem eval_namedexpr (O : Oracle) (i j : Nat) (s : String) (v : Expr) (σ : St) :
-    evalE O (.namedexpr i (.name j s .store) v) σ = bindK (evalE O v) (fun x τ => (.ok x, τ.set s x)) σ := by
-  simp only [evalE, bindK]
-  rcases evalE O v σ with ⟨r1, σ1⟩
-  cases r1 <;> rfl
 
 end Malt.Anf
 
